@@ -1440,7 +1440,10 @@ def _mode_pred(node: ast.AST, where) -> dict:
 
 
 def _ifexp_modes(node: ast.AST, yes, no, where) -> dict:
-    """`YES if <mode test> else NO` -> per mode: is it YES?"""
+    """`YES if <mode test> else NO` -> per mode: is it YES?  A constant is that answer for every mode (the obligations on
+    gen_hdr then say which mode loses its text)."""
+    if isinstance(node, ast.Constant) and (node.value in yes or node.value in no):
+        return {m: node.value in yes for m in UMODES}
     if isinstance(node, ast.IfExp) and isinstance(node.body, ast.Constant) and isinstance(node.orelse, ast.Constant):
         pred = _mode_pred(node.test, where)
         if node.body.value in yes and node.orelse.value in no:
@@ -1451,7 +1454,10 @@ def _ifexp_modes(node: ast.AST, yes, no, where) -> dict:
 
 
 def _ifexp_bool(node: ast.AST, yes, no, where) -> dict:
-    """`YES if unicode else NO` over the boolean `unicode` of the readers -> {True: is YES?, False: ...}."""
+    """`YES if unicode else NO` over the boolean `unicode` of the readers -> {True: is YES?, False: ...}; a constant is that
+    answer for both."""
+    if isinstance(node, ast.Constant) and (node.value in yes or node.value in no):
+        return {True: node.value in yes, False: node.value in yes}
     if isinstance(node, ast.IfExp) and isinstance(node.body, ast.Constant) and isinstance(node.orelse, ast.Constant):
         t = node.test
         neg = False
